@@ -333,9 +333,11 @@ impl<'a, F: IVP> SolOut for DefaultSolOut<'a, F> {
                                 }
                             }
 
-                            // Add the terminal event point to the output
-                            self.t.push(event_t);
-                            self.y.push(event_y);
+                            // Add the terminal event point to the output (unless it is the last sample itself)
+                            if self.t.last() != Some(&event_t) {
+                                self.t.push(event_t);
+                                self.y.push(event_y);
+                            }
                             
                             // Update prev_event before returning
                             self.prev_event.copy_from_slice(&self.g_curr_buf);
@@ -440,7 +442,7 @@ impl<'a, F: IVP> SolOut for DefaultSolOut<'a, F> {
             }
             
             // Normal output: record endpoint (avoid duplicates)
-            if self.t.is_empty() || (self.t.last().unwrap() - *x).abs() > self.tol {
+            if self.t.last() != Some(&*x) {
                 self.t.push(*x);
                 self.y.push(y.to_vec());
             }
